@@ -50,7 +50,8 @@ def main():
     src_dir = os.path.abspath(a.dir)
     patch = os.path.join(src_dir, "patch.diff")
     demo = next((os.path.join(src_dir, f) for f in ("demo_test.py", "demo.py") if os.path.exists(os.path.join(src_dir, f))), None)
-    name = a.name or f"{a.prop}-{os.path.basename(src_dir)}"
+    base = os.path.basename(src_dir)
+    name = a.name or (base if base.startswith(a.prop + "-") else f"{a.prop}-{base}")
     meta = {"property": a.prop, "name": name, "source": "independent sub-agent given only the property text and a scratch worktree"}
     ok = True
     if not a.skip_validate:
@@ -94,22 +95,37 @@ def main():
     if not a.no_store and ok:
         dest = os.path.join(ROOT, "seeded", name)
         os.makedirs(dest, exist_ok=True)
-        shutil.copy(patch, os.path.join(dest, "patch.diff"))
+        def cp(src, dst):
+            if os.path.abspath(src) != os.path.abspath(dst):
+                shutil.copy(src, dst)
+
+        cp(patch, os.path.join(dest, "patch.diff"))
         if demo:
-            shutil.copy(demo, os.path.join(dest, os.path.basename(demo)))
+            cp(demo, os.path.join(dest, os.path.basename(demo)))
         notes = os.path.join(src_dir, "notes.md")
         if os.path.exists(notes):
-            shutil.copy(notes, os.path.join(dest, "notes.md"))
+            cp(notes, os.path.join(dest, "notes.md"))
+        head = subprocess.run(["git", "-C", ROOT, "rev-parse", "--short", "HEAD"], capture_output=True, text=True).stdout.strip()
         old = {}
         mp = os.path.join(dest, "meta.json")
         if os.path.exists(mp):
             old = json.load(open(mp))
-            old_checks = old.get("checks", {})
-            old_checks.update(results)
-            meta["checks"] = old_checks
-            for k in ("patch_applies", "demo_passes_without", "demo_fails_with", "suite_stable_missing_with_change", "needs"):
-                if k in old and k not in meta:
-                    meta[k] = old[k]
+        history = list(old.get("history", []))
+        if not history:
+            # runs recorded before the history existed
+            for prop, r in old.get("checks", {}).items():
+                history.append({"verif_commit_before_run": "(first run)", "check": prop, "tier": r.get("tier"),
+                                "seed": r.get("seed"), "status": r.get("status"), "kinds": r.get("kinds")})
+        for prop, r in results.items():
+            history.append({"verif_commit_before_run": head, "check": prop, "tier": r["tier"], "seed": r["seed"],
+                            "status": r["status"], "kinds": r["kinds"]})
+        checks = dict(old.get("checks", {}))
+        checks.update(results)
+        meta["checks"] = checks
+        meta["history"] = history
+        for k in ("patch_applies", "demo_passes_without", "demo_fails_with", "suite_stable_missing_with_change", "needs"):
+            if k in old and k not in meta:
+                meta[k] = old[k]
         json.dump(meta, open(mp, "w"), indent=1)
     return 0 if ok else 1
 
